@@ -60,7 +60,7 @@ pub fn replay_pp_one(idx: usize, v: &Value, rep: &Report, cnt: &mut Counts, seed
     if let Some((ml, a, b)) = r {
         cnt.add("pp_scaled_exec", 2);
         if ml != minlen {
-            rep.finding(Class::Result, &format!("min_haystack_len() is {ml}, model max(|n|, max(i1,i2)+VB) = {minlen}"), ctx("min_haystack_len"));
+            rep.finding(Class::Pair, &format!("min_haystack_len() is {ml}, model max(|n|, max(i1,i2)+VB) = {minlen}"), ctx("min_haystack_len"));
         }
         // documented panic exactly when the haystack is shorter than min_haystack_len (C14)
         for (name, got) in [("find", &a), ("find_prefilter", &b)] {
@@ -112,7 +112,7 @@ pub fn replay_pp_one(idx: usize, v: &Value, rep: &Report, cnt: &mut Counts, seed
                     rep.finding(Class::Drift, &format!("portable prefilter candidate {g} differs from the model's {portable}"), ctx("portable"));
                 }
                 if f.pair().index1() as usize != i1 || f.pair().index2() as usize != i2 {
-                    rep.finding(Class::Result, "finder reports a different pair than it was given", ctx("pair"));
+                    rep.finding(Class::Pair, "all::packedpair finder reports a different pair than it was given", ctx("pair"));
                 }
             }
         }
@@ -131,10 +131,13 @@ pub fn replay_pp_one(idx: usize, v: &Value, rep: &Report, cnt: &mut Counts, seed
                 if let Some(f) = sse2::packedpair::Finder::with_pair(&n, pair) {
                     real_pp(rep, cnt, "sse2", hp.len() >= f.min_haystack_len(), f.min_haystack_len(), need, guard(|| opt_to_i(f.find(&hp, &n))), guard(|| opt_to_i(f.find_prefilter(&hp))), find, &n, &hp, i1, i2, &ctx);
                     if f.pair().index1() as usize != i1 || f.pair().index2() as usize != i2 {
-                        rep.finding(Class::Result, "sse2 finder reports a different pair than it was given", ctx("pair"));
+                        rep.finding(Class::Pair, "sse2 finder reports a different pair than it was given", ctx("pair"));
                     }
                 }
                 if let Some(f) = avx2::packedpair::Finder::with_pair(&n, pair) {
+                    if f.pair().index1() as usize != i1 || f.pair().index2() as usize != i2 {
+                        rep.finding(Class::Pair, "avx2 finder reports a different pair than it was given", ctx("pair"));
+                    }
                     real_pp(rep, cnt, "avx2", hp.len() >= f.min_haystack_len(), f.min_haystack_len(), need, guard(|| opt_to_i(f.find(&hp, &n))), guard(|| opt_to_i(f.find_prefilter(&hp))), find, &n, &hp, i1, i2, &ctx);
                 }
                 // AVX2 instance proper: pad to its own minimum
@@ -165,7 +168,7 @@ fn find_or(_n: &[u8], _h: &[u8], find: i64, panic: bool) -> i64 {
 fn real_pp(rep: &Report, cnt: &mut Counts, name: &str, in_domain: bool, ml: usize, want_ml: usize, a: Result<i64, String>, b: Result<i64, String>, find: i64, n: &[u8], h: &[u8], i1: usize, i2: usize, ctx: &dyn Fn(&str) -> Value) {
     cnt.add("pp_real_exec", 2);
     if ml != want_ml {
-        rep.finding(Class::Result, &format!("{name} min_haystack_len() is {ml}, expected max(|n|, max(i1,i2)+16) = {want_ml}"), ctx(name));
+        rep.finding(Class::Pair, &format!("{name} min_haystack_len() is {ml}, expected max(|n|, max(i1,i2)+16) = {want_ml}"), ctx(name));
     }
     if !in_domain {
         return;
@@ -215,8 +218,10 @@ pub fn replay_pp(vs: &[Value], rep: &Report, threads: usize, seed: u64) {
 /// Pair vectors: {needle, rank: [r0,r1,r2], none, i1, i2, acc: [[a,b,ok],...]}
 pub fn replay_pair_one(idx: usize, v: &Value, rep: &Report, cnt: &mut Counts, seed: u64) {
     let ns = get_bytes(v, "needle");
+    // finders built from the selected pair must report it (C19, last sentence)
     let rank = get_bytes(v, "rank");
     let none = v["none"].as_bool().unwrap();
+    let cap = get_u(v, "cap");
     let (mi1, mi2) = (get_i(v, "i1"), get_i(v, "i2"));
     let j = idx.wrapping_add(seed as usize);
     let (map, _) = MAPS[j % MAPS.len()];
@@ -242,7 +247,10 @@ pub fn replay_pair_one(idx: usize, v: &Value, rep: &Report, cnt: &mut Counts, se
                 if a == b || a as usize >= n.len() || b as usize >= n.len() || a > 254 || b > 254 {
                     rep.finding(Class::Result, &format!("Pair::with_ranker returned invalid offsets ({a},{b}) for a needle of {} bytes", n.len()), ctx("with_ranker"));
                 }
-                if (a, b) != (mi1, mi2) {
+                if n.len() > cap && cap < 255 {
+                    // the model's scan cap is scaled down: beyond it the code (cap 255) legitimately sees more of the needle
+                    cnt.add("beyond_scaled_cap", 1);
+                } else if (a, b) != (mi1, mi2) {
                     cnt.add("drift_pair", 1);
                     rep.finding(Class::Drift, &format!("selected pair ({a},{b}) differs from the L-model's ({mi1},{mi2})"), ctx("with_ranker"));
                 } else {
